@@ -178,6 +178,7 @@ def check(chk: Check) -> None:
     _fresh_literals(chk)
     _one_slot(chk)
     _none_is_a_value(chk, R3, acc)
+    _views(chk)
 
     # --------------------------------------------------------------------- R3
     sites = lookup_sites(chk)
@@ -258,6 +259,45 @@ def _none_is_a_value(chk: Check, R3: str, acc) -> None:
                             show(got), show(p.outcome[1])))
         if problems:
             chk.bad(R3, 'FUNCTIONS[%r] -> %s :: None as the absent marker' % (name, q), fi.where, '; '.join(sorted(set(problems))[:2]))
+
+
+def _views(chk: Check) -> None:
+    """keys / values / items show what the dict holds: each is built from the container's own view of the same name."""
+    F = chk.facts
+    R8 = chk.rule('C14.R8', 'keys / values / items observe the container: each returns, on every path, a value built from the view of the '
+                            'same name of its argument (`list(value.keys())`), not nothing and not another view', floor=3)
+    tab = functab.table(F)
+    n = 0
+    for name in ('keys', 'values', 'items'):
+        ent = tab.get(name)
+        if ent is None:
+            continue
+        n += 1
+        fi = ent.funcinfo(F)
+        where = '%s:%d' % (F.modules[functab.FUNCS_MOD].rel, ent.line)
+        if fi is None:
+            ok = ent.kind in ('ext', 'builtin') and ent.target.endswith('.' + name)
+            chk.require(ok, R8, ent.label, where, 'the dict method itself' if ok else '%s is %s, not a view of the container' % (name, ent.target))
+            continue
+        params = [a.arg for a in fi.node.args.args]
+        problems = []
+        for p in SymExec(F, fi).run():
+            if not p.normal:
+                continue
+
+            def has_view(t):
+                if isinstance(t, tuple):
+                    if t[:1] == ('call',) and isinstance(t[2], tuple) and t[2][:1] == ('attr',) and t[2][2] == name and params \
+                            and t[2][1] == ('param', params[0]):
+                        return True
+                    return any(has_view(x) for x in t)
+                return False
+            if not has_view(freeze(p.outcome[1])):
+                problems.append('a path returns %s' % show(p.outcome[1]))
+        chk.require(not problems, R8, ent.label, where, '; '.join(sorted(set(problems))[:2]) + ': not built from `%s.%s()`' % (params[0] if params else '?', name)
+                    if problems else 'built from the %s() view of its argument' % name)
+    if n == 0:
+        raise AnalysisError('anchor vanished: none of keys / values / items is in the function table')
 
 
 def _one_slot(chk: Check) -> None:
